@@ -280,6 +280,8 @@ func (d dynProfile) GetClaims() psatoken.IClaims {
 		return newExtP1ClaimsNamed(d.name)
 	case "own-tag":
 		return newOwnTagClaimsNamed(d.name)
+	case "two-embedded-p2":
+		return newTwoEmbClaimsNamed(d.name)
 	case "no-profile-field":
 		return &NoProfClaims{}
 	case "lookalike-keys":
@@ -297,6 +299,8 @@ func shapeType(shape string) string {
 		return "*checks.ExtP1Claims"
 	case "own-tag":
 		return "*checks.OwnTagClaims"
+	case "two-embedded-p2":
+		return "*checks.TwoEmbClaims"
 	case "p1":
 		return "*psatoken.P1Claims"
 	case "p2":
@@ -349,4 +353,57 @@ func (inheritP2Profile) GetClaims() psatoken.IClaims {
 		SwComponents:     &psatoken.SwComponents[*psatoken.SwComponent]{},
 		CanonicalProfile: InhP2OID,
 	}}
+}
+
+// ---- a claims type with TWO sibling embedded structs: a group of vendor
+// claims that has no profile field, declared BEFORE the embedded profile-2
+// claims that have it ----
+
+type AuditGroup struct {
+	Auditor *string `cbor:"-75200,keyasint,omitempty" json:"auditor,omitempty"`
+	Audited *int64  `cbor:"-75201,keyasint,omitempty" json:"audited,omitempty"`
+}
+
+type TwoEmbClaims struct {
+	AuditGroup
+	psatoken.P2Claims
+}
+
+func (o TwoEmbClaims) MarshalCBOR() ([]byte, error) { return encoding.SerializeStructToCBOR(hem, &o) }
+func (o *TwoEmbClaims) UnmarshalCBOR(data []byte) error {
+	return encoding.PopulateStructFromCBOR(hdm, data, o)
+}
+func (o TwoEmbClaims) MarshalJSON() ([]byte, error) { return encoding.SerializeStructToJSON(&o) }
+func (o *TwoEmbClaims) UnmarshalJSON(data []byte) error {
+	return encoding.PopulateStructFromJSON(data, o)
+}
+
+func newTwoEmbClaimsNamed(name string) psatoken.IClaims {
+	p := eat.Profile{}
+	if err := p.Set(name); err != nil {
+		panic(err)
+	}
+	return &TwoEmbClaims{P2Claims: psatoken.P2Claims{
+		Profile:          &p,
+		SwComponents:     &psatoken.SwComponents[*psatoken.SwComponent]{},
+		CanonicalProfile: name,
+	}}
+}
+
+// nestingProfile: a profile whose factory, on its first call (RegisterProfile
+// itself calls it), registers ANOTHER profile - the "lazy dependency" idiom.
+type nestingProfile struct {
+	outer    dynProfile
+	inner    psatoken.IProfile
+	done     *bool
+	innerErr *error
+}
+
+func (n nestingProfile) GetName() string { return n.outer.name }
+func (n nestingProfile) GetClaims() psatoken.IClaims {
+	if !*n.done {
+		*n.done = true
+		*n.innerErr = psatoken.RegisterProfile(n.inner)
+	}
+	return n.outer.GetClaims()
 }
